@@ -138,7 +138,13 @@ func c14CalendarDate(d string) bool {
 	if !c14ExactDigits(d, 8) {
 		return false
 	}
-	n := func(s string) int { v := 0; for i := 0; i < len(s); i++ { v = v*10 + int(s[i]-'0') }; return v }
+	n := func(s string) int {
+		v := 0
+		for i := 0; i < len(s); i++ {
+			v = v*10 + int(s[i]-'0')
+		}
+		return v
+	}
 	y, m, dd := n(d[:4]), n(d[4:6]), n(d[6:])
 	return y >= 1 && m >= 1 && m <= 12 && dd >= 1 && dd <= c14DaysIn(y, m)
 }
@@ -233,6 +239,17 @@ const (
 var c14FamNames = [c14NumFam]string{"formatted-ids", "formatted-all-dates", "formatted-basket-denoms", "all-short-strings", "single-edit-neighbours",
 	"grammar-piece-products", "basket-short-strings", "basket-piece-products", "double-edit-neighbours"}
 
+// C14BasketSeparatorAsFinding decides how the one discrepancy that exists on
+// the unchanged tree is reported: basket.ValidateBasketDenom accepts any
+// character in place of the two dots of eco.<prefix><abbrev>.<name> (the dots
+// of its regular expression are unescaped), contradicting both the proto
+// comment and the code comment ("separated by a '.'"). true: a finding of kind
+// C14/validator-accepts-string-outside-grammar/basket-denom; false: only an
+// entry under coverage.formats.observations (basket denoms are not named in the
+// first sentence of the property statement, only its "all strings fed to the
+// format validators" quantifier and its anchors cover them).
+var C14BasketSeparatorAsFinding = true
+
 type c14Cand struct {
 	fam    int
 	s      string
@@ -276,7 +293,7 @@ type c14Acc struct {
 	accepts  [6]int64 // acceptances per validator (not distinct)
 	cands    map[string]c14Cand
 
-	nonCalendar, nonCanonical, basketLooseMiddle, beyondUint64 c14Obs
+	nonCalendar, nonCanonical, basketLooseMiddle, basketSeparator, beyondUint64 c14Obs
 }
 
 func newC14Acc() *c14Acc { return &c14Acc{cands: map[string]c14Cand{}} }
@@ -305,6 +322,7 @@ func (a *c14Acc) merge(b *c14Acc) {
 	a.nonCalendar.merge(b.nonCalendar)
 	a.nonCanonical.merge(b.nonCanonical)
 	a.basketLooseMiddle.merge(b.basketLooseMiddle)
+	a.basketSeparator.merge(b.basketSeparator)
 	a.beyondUint64.merge(b.beyondUint64)
 }
 
@@ -454,13 +472,24 @@ func (a *c14Acc) check(fam int, s string) c14Verdict {
 	verdict(c14VBasketName, basket.ValidateBasketName(s) == nil, c14RecBasketName(s))
 	strict, loose := c14RecBasketDenom(s)
 	acc := basket.ValidateBasketDenom(s) == nil
-	if acc && !strict && loose {
+	switch {
+	case acc && !strict && loose:
 		// dotted, name fine, middle part is 1-4 letters but not <prefix><ABBREV>:
 		// the code comment announces this looseness, recorded as an observation.
 		a.basketLooseMiddle.add(s)
-		v.accept[c14VBasketDenom], v.rec[c14VBasketDenom] = true, false
+		v.accept[c14VBasketDenom] = true
 		a.accepts[c14VBasketDenom]++
-	} else {
+	case acc && !strict:
+		// accepted although the three parts are not separated by literal dots
+		v.accept[c14VBasketDenom] = true
+		a.accepts[c14VBasketDenom]++
+		a.basketSeparator.add(s)
+		if C14BasketSeparatorAsFinding {
+			a.flag("C14/validator-accepts-string-outside-grammar/"+c14ValidatorNames[c14VBasketDenom], fam, s,
+				fmt.Sprintf("ValidateBasketDenom accepts %q although its parts are not separated by '.' as the documented format eco.<prefix><credit_type_abbrev>.<name> requires (any character is accepted in place of either dot)", s),
+				rp(map[string]interface{}{"validator": c14ValidatorNames[c14VBasketDenom], "call": "basket.ValidateBasketDenom(input) returns nil"}))
+		}
+	default:
 		verdict(c14VBasketDenom, acc, strict)
 	}
 	return v
@@ -1089,25 +1118,26 @@ func C14Formats(tier string, o *runner.Outcome) {
 	addObs("ValidateBatchDenom accepts 8-digit date fields that are not calendar dates (the documented format only says YYYYMMDD; the parsers are unaffected)", total.nonCalendar)
 	addObs("validator-accepted id with more zero padding than the formatter emits (e.g. C001 next to C01)", total.nonCanonical)
 	addObs("validator-accepted id whose sequence digits exceed uint64, which no formatter call can produce", total.beyondUint64)
+	addObs("ValidateBasketDenom accepts strings whose three parts are not separated by '.' (unescaped dots in the regular expression of basket/utils.go); reported as a finding iff C14BasketSeparatorAsFinding", total.basketSeparator)
 	addObs("ValidateBasketDenom accepts a dotted denom whose middle part is 1-4 letters but not <SI prefix><1-3 uppercase letters> (looseness announced by the code comment in basket/utils.go, documented format is eco.<prefix><credit_type_abbrev>.<name>)", total.basketLooseMiddle)
 
 	o.Coverage["formats"] = map[string]interface{}{
-		"evaluations":         total.evals,
-		"distinct_nontrivial": distinct,
-		"rule": "every enumerated string is fed to all six validators (credit type abbreviation, class id, project id, batch denom, basket name, basket denom) and each verdict is compared with a hand-written recogniser of the documented grammar; on every accepted class id / project id / batch denom all Get*From* parsers are compared with the recogniser's decomposition and the recovered ids are re-validated. Families: (a) Format* outputs for 5 abbreviations x the sequence numbers x 5x5 dates (plus all 18278 abbreviations, every civil day of the enumerated years and all documented basket exponents), compared with the documented format built by hand, with collision sets; (b) all strings of length <= L over {A,Z,a,0,9,-}, 'eco'+all strings over {.,C,u,a,0,-}, every single-edit neighbour (15 characters) of ~50 formatted ids, products of valid and invalid grammar pieces, and (thorough) double-edit neighbours. distinct_nontrivial = number of distinct strings (by 64-bit FNV-1a, a collision can only under-count) accepted by the class-id, project-id or batch-denom validator and fully cross-checked with the parsers",
-		"samples":                    samples,
-		"exhaustive":                 true,
-		"evaluations_per_family":     famN,
-		"formatted":                  counts,
-		"validator_acceptances":      acc,
-		"max_length_short_strings":   shortLen,
-		"edit_base_ids":              bases,
-		"single_edit_neighbours":     len(e1),
-		"grammar_piece_products":     bp.size(),
-		"basket_piece_products":      kp.size(),
-		"observations":               obs,
-		"finding_kinds":              kinds,
-		"wall_s_formats":             time.Since(begin).Seconds(),
+		"evaluations":              total.evals,
+		"distinct_nontrivial":      distinct,
+		"rule":                     "every enumerated string is fed to all six validators (credit type abbreviation, class id, project id, batch denom, basket name, basket denom) and each verdict is compared with a hand-written recogniser of the documented grammar; on every accepted class id / project id / batch denom all Get*From* parsers are compared with the recogniser's decomposition and the recovered ids are re-validated. Families: (a) Format* outputs for 5 abbreviations x the sequence numbers x 5x5 dates (plus all 18278 abbreviations, every civil day of the enumerated years and all documented basket exponents), compared with the documented format built by hand, with collision sets; (b) all strings of length <= L over {A,Z,a,0,9,-}, 'eco'+all strings over {.,C,u,a,0,-}, every single-edit neighbour (15 characters) of ~50 formatted ids, products of valid and invalid grammar pieces, and (thorough) double-edit neighbours. distinct_nontrivial = number of distinct strings (by 64-bit FNV-1a, a collision can only under-count) accepted by the class-id, project-id or batch-denom validator and fully cross-checked with the parsers",
+		"samples":                  samples,
+		"exhaustive":               true,
+		"evaluations_per_family":   famN,
+		"formatted":                counts,
+		"validator_acceptances":    acc,
+		"max_length_short_strings": shortLen,
+		"edit_base_ids":            bases,
+		"single_edit_neighbours":   len(e1),
+		"grammar_piece_products":   bp.size(),
+		"basket_piece_products":    kp.size(),
+		"observations":             obs,
+		"finding_kinds":            kinds,
+		"wall_s_formats":           time.Since(begin).Seconds(),
 	}
 }
 
